@@ -191,7 +191,8 @@ func genC02(t *rapid.T) c02Case {
 		case "unterminated-action-empty":
 			c.Src = p + L
 		case "unterminated-comment":
-			c.Src = p + d.CL() + rapid.SampledFrom([]string{"", " note ", " " + L + " x " + R, "*", "\n"}).Draw(t, "uc")
+			// also: the closer's tail directly behind the opener ("{*}"), which must not count as a closer
+			c.Src = p + d.CL() + rapid.SampledFrom([]string{"", " note ", " " + L + " x " + R, "*", "\n", d.CR()[1:], d.CR()[1:] + " tail", d.CR()[:len(d.CR())-1]}).Draw(t, "uc")
 		case "unterminated-string":
 			c.Src = p + L + ` "abc` + rapid.SampledFrom([]string{"\n", "", "\n" + `"` + R, " " + R}).Draw(t, "us")
 		case "unterminated-rawstring":
@@ -267,6 +268,10 @@ func judgeC02(c c02Case) (v core.Verdict) {
 	if resp.CallerPanic != "" {
 		v.Label("outcome:panic")
 		v.Failf("%s panicked: %s", desc, resp.CallerPanic)
+		return
+	}
+	if resp.Second != "" {
+		v.Failf("%s: %s", desc, resp.Second)
 		return
 	}
 	if resp.LexerLeak {
